@@ -7,5 +7,6 @@ CONSTANTS
   Proto = "no_created_on_apply"
   RequireLastLeaf = TRUE
   MaxSteps = 4
+  EmitAt = 5
 VIEW view
 INVARIANTS TypeOK AccIsFromScratch
